@@ -181,8 +181,13 @@ def m1(node: ast.AST) -> set:
 
 
 def m2(node: ast.AST) -> set:
-    """M2: (almost) anything may raise."""
+    """M2: (almost) anything may raise.  Exception (assumption A6): a statement that is nothing but
+    a logging call with plain arguments -- Python's logging swallows its own errors."""
     kinds = set()
+    from .loader import is_logging_stmt
+    if is_logging_stmt(node) and all(isinstance(a, (ast.Constant, ast.Name, ast.Attribute, ast.JoinedStr))
+                                     for a in node.value.args) and not node.value.keywords:
+        return kinds
     for n in walk_shallow(node):
         if isinstance(n, ast.Await):
             kinds.update(('E', 'C'))
